@@ -621,18 +621,24 @@ class Gen:
         self.calm = False   # "cap" sessions: one username, right service, mostly failing credentials
 
     # -- environments
+    # what an application may return to say "no" without using the constant AUTH_FAILED: falling off the end of the
+    # callback (None), -1, an app-private code, a string
+    ODD_FAILURES = [None, -1, 3, "no", 7]
+
     def code(self, bias=None):
         r = self.rng.random()
         if self.calm:
-            return 2 if r < 0.8 else (1 if r < 0.97 else 0)
+            if r < 0.8:
+                return 2 if self.rng.random() < 0.6 else self.rng.choice(self.ODD_FAILURES)
+            return 1 if r < 0.97 else 0
         bias = bias or {"c16": (0.12, 0.15), "c15": (0.25, 0.2), "c14": (0.35, 0.15)}[self.profile]
         if r < bias[0]:
             return 0
         if r < bias[0] + bias[1]:
             return 1
-        if r < 0.97:
+        if r < 0.94:
             return 2
-        return self.rng.choice([3, 7])
+        return self.rng.choice(self.ODD_FAILURES)
 
     def ires(self):
         if self.rng.random() < 0.35:
@@ -657,15 +663,25 @@ class Gen:
         return e
 
     @staticmethod
+    def model_code(v):
+        """the model's verdict is a number; paramiko compares the callback's value with == against the constants, so
+        anything that is neither == 0 nor == 1 nor == 2 behaves like one 'other' value (9)"""
+        for k in (0, 1, 2):
+            if v == k and not isinstance(v, str):
+                return k
+        return v if isinstance(v, int) and not isinstance(v, bool) and v > 2 else 9
+
+    @staticmethod
     def ires_tok(r):
         if isinstance(r, tuple):
             ps = ",".join("%s/%d" % (hx(p.encode()), 1 if e else 0) for p, e in r[3]) or "-"
             return "q:%s:%s:%s" % (hx(r[1].encode()), hx(r[2].encode()), ps)
-        return "c:%d" % r
+        return "c:%d" % Gen.model_code(r)
 
     def env_tokens(self, e):
-        t = ["gss=%d" % e["gss_enabled"], "rnone=%d" % e["r_none"], "rpw=%d" % e["r_password"],
-             "rpk=%d" % e["r_pubkey"], "rgm=%d" % e["r_gssmic"], "rgk=%d" % e["r_gsskeyex"],
+        mc = self.model_code
+        t = ["gss=%d" % e["gss_enabled"], "rnone=%d" % mc(e["r_none"]), "rpw=%d" % mc(e["r_password"]),
+             "rpk=%d" % mc(e["r_pubkey"]), "rgm=%d" % mc(e["r_gssmic"]), "rgk=%d" % mc(e["r_gsskeyex"]),
              "rint=" + self.ires_tok(e["r_inter"]), "rires=" + self.ires_tok(e["r_iresp"]),
              "mech=%d" % e["mech_ok"], "mic=%d" % e["mic_ok"], "oids=" + hx(OIDS),
              "allowed=" + hx(e["allowed"].encode())]
